@@ -309,8 +309,38 @@ def check_sets(res: Dict[str, Any]) -> None:
             res['nontrivial_count'] += 1
 
 
+def check_bracket_strings(res: Dict[str, Any], first: str) -> None:
+    """every pattern '[' + first + <= 3 more symbols over {a b ] [ ! - ^}: brackets that open, close early, stay open or hold a ']' as first member,
+    against every name of <= 3 characters over {a b ] [ !}; reference = fnmatch (no dots involved, so the two matchers must agree)"""
+    import fnmatch
+    import warnings
+    from pydoctor.qnmatch import qnmatch
+    syms = 'ab][!-^'
+    names = [''.join(t) for n in range(1, 4) for t in itertools.product('ab][!', repeat=n)]
+    for n in range(0, 4):
+        for seq in itertools.product(syms, repeat=n):
+            pat = '[' + first + ''.join(seq)
+            res['nontrivial_count'] += 1
+            for name in names:
+                res['evals'] += 1
+                want = fnmatch.fnmatchcase(name, pat)
+                with warnings.catch_warnings():
+                    warnings.simplefilter('ignore')
+                    try:
+                        got: Any = qnmatch(name, pat)
+                    except Exception as e:  # noqa
+                        got = f'raises {type(e).__name__}'
+                if got != want:
+                    body = pat[1:]
+                    shape = ('negated-' if body.startswith('!') else '') + ('bracket-first' if body.lstrip('!').startswith(']') else 'range' if '-' in body[1:] else 'other')
+                    res['violations'].append(core.violation(f'match/bracket-string-{shape}/{got if isinstance(got, str) else "differs"}'.replace(' ', '-'),
+                                                            f'qnmatch({name!r}, {pat!r}) is {got}, fnmatch says {want}', {'kind': 'set', 'pattern': pat, 'name': name}))
+
+
 def jobs(tier: str) -> Iterable[Tuple[str, Any]]:
     yield ('match:sets<=3', ('sets',))
+    for first in 'ab][!-^':
+        yield ('match:bracket-strings<=5', ('brackets', first))
     plen = 5 if tier == 'quick' else 7
     nlen = 5
     # (a) partition patterns by their first two symbols (plus the short ones)
@@ -333,6 +363,9 @@ def jobs(tier: str) -> Iterable[Tuple[str, Any]]:
 def run_job(job: Any, tier: str) -> Dict[str, Any]:
     res = core.result()
     kind = job[0]
+    if kind == 'brackets':
+        check_bracket_strings(res, job[1])
+        return res
     if kind == 'match':
         from pydoctor.qnmatch import qnmatch
         _, prefix, plen, nlen = job
@@ -433,5 +466,7 @@ def replay(case: Dict[str, Any]) -> List[Dict[str, Any]]:
     if k == 'set':
         res = core.result()
         check_sets(res)
+        if case['pattern'][1:2]:
+            check_bracket_strings(res, case['pattern'][1])
         return [v for v in res['violations'] if v['case'] == case]
     raise ValueError(k)
